@@ -142,6 +142,12 @@ def rule_nullable_table(a: Analysis, rule_id: str) -> RuleReport:
         ('Sequence(Choice(token | void), void)', b.seq(b.choice(b.tok(), b.void()), b.void()), True, False),
         ('Choice(Sequence(void, token) | token)', b.choice(b.seq(b.void(), b.tok()), b.tok()), False, False),
         ('Group(Choice(token | void))', b.box('Group', b.choice(b.tok(), b.void())), True, False),
+        # the grammar every parse runs on is the OPTIMIZED one, whose choices hold their alternatives bare (no Option wrapper)
+        ('Choice with bare alternatives (optional(token) | token)', Stub(Q['Choice'], options=[b.box('Optional', b.tok()), b.tok()]), True, False),
+        ('Choice with bare alternatives (closure(token) | token)', Stub(Q['Choice'], options=[b.box('Closure', b.tok()), b.tok()]), True, False),
+        ('Choice with bare alternatives (lookahead(token) | token)', Stub(Q['Choice'], options=[b.box('Lookahead', b.tok()), b.tok()]), True, False),
+        ('Choice with bare alternatives (positive closure(token) | token)', Stub(Q['Choice'], options=[b.box('PositiveClosure', b.tok()), b.tok()]), False, False),
+        ('Choice with bare alternatives (token | token)', Stub(Q['Choice'], options=[b.tok(), b.tok()]), False, False),
     ]
     for what, node, want, info in cases:
         try:
@@ -358,7 +364,7 @@ def rule_all_small_graphs(a: Analysis, rule_id: str, tier: str) -> RuleReport:
         'graphs, exhaustive): mark_left_recursion with its SCC/cycle helpers is interpreted on stand-in rules whose bodies are '
         'choices of `call token` sequences; required: (1) some rule is marked iff the graph has a cycle (so the grammar error '
         'with left recursion off is exact); (2) a rule on no cycle stays is_lrec=False, is_memo=True; (3) every cycle contains a '
-        'marked rule (only marked rules get the runtime guard: an unmarked cycle recurses without bound)',
+        'marked rule (only marked rules get the runtime guard: an unmarked cycle recurses without bound); (4) no rule on a cycle stays memoized',
         floor=512,
     )
     b = B(a)
@@ -371,9 +377,10 @@ def rule_all_small_graphs(a: Analysis, rule_id: str, tier: str) -> RuleReport:
     if tier != 'thorough':
         # quick: every graph over two rules (16) plus every 8th graph over three rules; thorough: all 512
         small = {sum(1 << i for j, i in enumerate(two) if sub >> j & 1) for sub in range(1 << len(two))}
-        masks = sorted(small | set(range(0, 1 << len(all_edges), 8)))
+        sparse = {m_ for m_ in range(1 << len(all_edges)) if bin(m_).count('1') <= 3}  # every graph with at most three edges (all simple cycles)
+        masks = sorted(small | sparse | set(range(0, 1 << len(all_edges), 8)))
         rep.floor = len(masks)
-        rep.text += ' [quick tier: all 16 two-rule graphs and every 8th three-rule graph; the thorough tier enumerates all 512]'
+        rep.text += ' [quick tier: all 16 two-rule graphs, all graphs with at most 3 edges and every 8th three-rule graph; the thorough tier enumerates all 512]'
     plan = [(names, all_edges, masks, bad_known)]
     bad4: list[str] = []
     if tier == 'thorough':
@@ -412,6 +419,10 @@ def rule_all_small_graphs(a: Analysis, rule_id: str, tier: str) -> RuleReport:
         for n in names:
             if n not in on_cycle and (n in marked or n not in memo):
                 problems.append(('offcycle', f'graph [{gtxt}]: rule {n} lies on no cycle but is_lrec={n in marked} is_memo={n in memo}'))
+        for n in sorted(on_cycle):
+            if n in memo:
+                problems.append(('memo-on-cycle', f'graph [{gtxt}]: rule {n} lies on a cycle but stays memoized: while the seed of the cycle grows, its first '
+                                                  f'result is replayed from the memo and the recursion stops advancing'))
         unguarded = [c for c in cycles if not (set(c) & marked)]
         if unguarded:
             # is there a better choice?  a rule common to all cycles of each affected component
